@@ -1,9 +1,10 @@
 """C01 — SWC write -> read round trip reproduces the tree."""
 import io
 import os
+import pathlib
 import shutil
 import tempfile
-from decimal import ROUND_HALF_EVEN, Decimal
+from decimal import ROUND_FLOOR, ROUND_HALF_EVEN, Decimal
 
 import numpy as np
 
@@ -28,6 +29,47 @@ def q4(v32):
     return int(d.scaleb(4))
 
 
+def q4_both(v32):
+    """the 4-decimal roundings the property admits for a float32 value: one value, or the two neighbours when the binary value
+    lies EXACTLY half-way between two 4-decimal numbers (the property says "rounded", not which way a tie goes)"""
+    d = Decimal(float(v32)).scaleb(4)
+    lo = d.to_integral_value(rounding=ROUND_FLOOR)
+    if d - lo == Decimal("0.5"):
+        return {int(lo), int(lo) + 1}
+    return {q4(v32)}
+
+
+# Values next to a rounding threshold of the last decimal the format carries, at every magnitude INCLUDING below one unit of that
+# decimal: (k + f) * 1e-4 for k units of the last decimal and a fractional part f around the half-way point.  Uniform coordinates
+# practically never fall there (k = 0 is a window of width 1e-4 next to zero), and that is where "too small to matter" shortcuts, truncation
+# instead of rounding, and sign handling of values that print as zero show.  `None` = drawn from the rng inside the stratum.
+EDGE_UNITS = [0, 1, 2, 9, 10, 99, 9999, 10000, None]
+EDGE_FRACS = [0.0, 0.1, 0.3, 0.49, 0.499, 0.4999, 0.5, 0.5001, 0.501, 0.51, 0.7, 0.9, 0.999, None]
+
+
+def edge_pool(rng):
+    """every stratum (units, fraction, sign) once, plus exact binary ties ((2j+1)/32 is a float32 AND half-way at the 4th decimal), shuffled"""
+    pool = [(k, f, s) for k in EDGE_UNITS for f in EDGE_FRACS for s in (1, -1)]
+    pool += [("tie", None, s) for s in (1, -1) for _ in range(4)]
+    rng.shuffle(pool)
+    return pool
+
+
+def edge_value(rng, stratum):
+    k, f, s = stratum
+    if k == "tie":
+        return s * (2 * rng.randint(0, 500) + 1) / 32.0
+    if k is None:
+        k = rng.randint(3, 10 ** rng.randint(1, 7))
+    if f is None:
+        f = rng.random()
+    return s * (k + f) * 1e-4
+
+
+# how a file is named when it is a path source: everything open() takes as a path
+PATH_FORMS = {"str": lambda p: p, "pathlike": pathlib.Path, "bytes": os.fsencode}
+
+
 COMMENTS = ["plain comment", "  leading blanks", "", "   ", "\t", "x: 1, y: 2", "# nested hash", "ends with blanks   ", "CREATED BY tool", "id of the cell: 7"]
 
 
@@ -38,22 +80,60 @@ class RoundTrip(Suite):
         out = []
         reps = 3 if tier == "quick" and not widen else 10
         k = 0
-        for n in gen.sizes(tier, widen) + ([3000] if tier == "thorough" and not widen else []):
+        pool, used = edge_pool(rng), [0]
+
+        def strata(m):
+            got = [pool[(used[0] + i) % len(pool)] for i in range(m)]
+            used[0] += m
+            return got
+
+        def mk(n, shape, coords=None, kind=None, forms=None):
+            coords = coords or rng.choice(["dyadic", "grid4", "wild", "float"])
+            t = gen.tree_case(rng, n, shape, numbering=rng.choice(["sorted", "root0"]), coords=coords if coords in ("dyadic", "grid4") else "float", types="any")
+            if coords == "wild":
+                for p in t["xyz"]:
+                    for i in range(3):
+                        p[i] = rng.choice([0.0, -0.0, 1e-30, -1e-7, 5e-5, 0.00005, 0.99995, 123456.789, -1e6, 3.4e9, 1e-4, 0.12345, 2.5e-5])
+                t["r"] = [rng.choice([0.00004, 0.00005, 1.0, 1e-9, 12.34565]) for _ in t["r"]]
+                t["types"] = [rng.choice([0, 1, 7, 12, 255, 100000]) for _ in t["types"]]
+            if coords == "edge4":
+                # every coordinate and radius next to a rounding threshold; the strata are dealt round-robin over ALL edge cases of the run, so
+                # the quick tier (4 * 96 values) sees each (units, fraction, sign) stratum at least once whatever the seed
+                vals = [edge_value(rng, st_) for st_ in strata(4 * t["n"])]
+                t["xyz"] = [vals[4 * i:4 * i + 3] for i in range(t["n"])]
+                t["r"] = [abs(vals[4 * i + 3]) for i in range(t["n"])]
+            cm = [rng.choice(COMMENTS) for _ in range(rng.choice([0, 0, 1, 2, 4]))]
+            case = {"class": f"{coords}/{t['class']}", "tree": t, "comments": cm,
+                    "source": rng.choice([True, False, "my source"]), "with_comments": rng.random() < 0.85,
+                    "offset": rng.choice([0, 1, 1, 7, 10**6, 2**24 - 2, 20000001, 123456789]),
+                    "kind": kind or rng.choice(["text", "bytes", "path", "path-write"]),
+                    "passes": rng.choice([1, 1, 2, 3])}
+            if forms:
+                case["read_form"], case["write_form"] = forms
+                case["class"] = f"{case['kind']}:{forms[0]}/" + case["class"]
+            return case
+
+        sizes = gen.sizes(tier, widen) + ([3000] if tier == "thorough" and not widen else [])
+        for n in sizes:
             for _ in range(reps if n < 1000 else 1):
                 shape = gen.pick_shape(rng, k); k += 1
-                coords = rng.choice(["dyadic", "grid4", "wild", "float"])
-                t = gen.tree_case(rng, n, shape, numbering=rng.choice(["sorted", "root0"]), coords="float" if coords == "wild" else coords, types="any")
-                if coords == "wild":
-                    for p in t["xyz"]:
-                        for i in range(3):
-                            p[i] = rng.choice([0.0, -0.0, 1e-30, -1e-7, 5e-5, 0.00005, 0.99995, 123456.789, -1e6, 3.4e9, 1e-4, 0.12345, 2.5e-5])
-                    t["r"] = [rng.choice([0.00004, 0.00005, 1.0, 1e-9, 12.34565]) for _ in t["r"]]
-                    t["types"] = [rng.choice([0, 1, 7, 12, 255, 100000]) for _ in t["types"]]
-                cm = [rng.choice(COMMENTS) for _ in range(rng.choice([0, 0, 1, 2, 4]))]
-                out.append({"class": f"{coords}/{t['class']}", "tree": t, "comments": cm,
-                            "source": rng.choice([True, False, "my source"]), "with_comments": rng.random() < 0.85,
-                            "offset": rng.choice([0, 1, 1, 7, 10**6, 2**24 - 2, 20000001, 123456789]), "kind": rng.choice(["text", "bytes", "path", "path-write"]),
-                            "passes": rng.choice([1, 1, 2, 3])})
+                out.append(mk(n, shape))
+        # family: values next to a rounding threshold of the last decimal (guaranteed share: one tree per size, all of whose values are such)
+        for n in sizes:
+            for _ in range(1 if tier == "quick" and not widen else 3):
+                shape = gen.pick_shape(rng, k); k += 1
+                if n < 1000:
+                    out.append(mk(n, shape, coords="edge4"))
+        # family: every way to hand the written file to the reader as a "path" or "text stream" source - the path as str, os.PathLike or
+        # bytes (os.fsencode / os.listdir(b"...") give such paths), for files written by the caller and files written by to_swc(fname)
+        # itself (then named in the same form), and an open text file.  Guaranteed share: each form with two tree sizes.
+        flavours = [("path", ("pathlike", "str")), ("path", ("bytes", "str")), ("path-write", ("pathlike", "pathlike")),
+                    ("path-write", ("bytes", "bytes")), ("path-write", ("bytes", "str")), ("textfile", ("str", "str"))]
+        small = [n for n in sizes if n <= 40]
+        for kind, forms in flavours:
+            for n in (rng.choice(small[:4]), rng.choice(small[4:])) + ((rng.choice(sizes),) if tier == "thorough" or widen else ()):
+                shape = gen.pick_shape(rng, k); k += 1
+                out.append(mk(n, shape, kind=kind, forms=forms))
         return out
 
     def run(self, case):
@@ -74,6 +154,8 @@ class RoundTrip(Suite):
             t = d
         tmp = None
         hist = []
+        fh = None
+        rform, wform = PATH_FORMS[case.get("read_form", "str")], PATH_FORMS[case.get("write_form", "str")]
         try:
             cur = t
             for _ in range(case["passes"]):
@@ -81,8 +163,8 @@ class RoundTrip(Suite):
                 if case["kind"] == "path-write":
                     tmp = tmp or tempfile.mkdtemp(prefix="c01_")
                     fn = os.path.join(tmp, "w.swc")
-                    cur.to_swc(fn, **kw)
-                    src = fn
+                    cur.to_swc(wform(fn), **kw)
+                    src = rform(fn)
                     text = open(fn, encoding="utf-8").read()
                 else:
                     text = cur.to_swc(**kw)
@@ -92,9 +174,15 @@ class RoundTrip(Suite):
                         src = io.BytesIO(text.encode("utf-8"))
                     else:
                         tmp = tmp or tempfile.mkdtemp(prefix="c01_")
-                        src = os.path.join(tmp, "r.swc")
-                        with open(src, "w", encoding="utf-8") as f:
+                        fn = os.path.join(tmp, "r.swc")
+                        with open(fn, "w", encoding="utf-8") as f:
                             f.write(text)
+                        if case["kind"] == "textfile":   # a text stream that is an open file rather than a StringIO
+                            if fh:
+                                fh.close()
+                            src = fh = open(fn, encoding="utf-8")
+                        else:
+                            src = rform(fn)
                 back = Tree.from_swc(src)
                 hist.append({"text_head": text[:300], "full_text": text if len(hist) == 0 and back.number_of_nodes() <= 80 else None, "n": back.number_of_nodes(), "pid": back.pid().tolist(), "type": back.type().tolist(),
                              "id": back.id().tolist(),
@@ -105,6 +193,8 @@ class RoundTrip(Suite):
             return {"passes": hist, "text": text if len(text) < 4000 else text[:4000], "first_text": hist[0]["full_text"] if t.number_of_nodes() <= 80 else None,
                     "source_text": t.source}
         finally:
+            if fh:
+                fh.close()
             if tmp:
                 shutil.rmtree(tmp, ignore_errors=True)
 
@@ -169,8 +259,10 @@ class RoundTrip(Suite):
             for c in "xyzr":
                 want = np.array([np.float32(q4(v) / 10000.0) for v in cur_cols[c]], dtype=np.float32)
                 got = np.array(h[c], dtype=np.float32)
-                if not np.array_equal(want, got):
-                    i = int(np.nonzero(want != got)[0][0])
+                bad = [int(i) for i in np.nonzero(want != got)[0]
+                       if not any(np.float32(q / 10000.0) == got[i] for q in q4_both(cur_cols[c][i]))]   # an exact tie may go either way
+                if bad:
+                    i = bad[0]
                     out.append(("coords", f"pass {k+1}: column {c} node {i}: original {float(cur_cols[c][i])!r} → read back {float(got[i])!r}, "
                                           f"4-decimal rounding gives {float(want[i])!r}"))
                 nxt[c] = got
